@@ -317,8 +317,8 @@ pub fn run(ctx: &Ctx) -> Report {
         }
         return rep;
     }
-    let n_random = ctx.budget(3000, 250_000);
-    let pair_stride = if ctx.quick() { 97 } else { 3 };
+    let n_random = ctx.budget(30_000, 600_000);
+    let pair_stride = if ctx.quick() { 17 } else { 1 };
     let seed = ctx.seed;
     let sw_ref = &sw;
     let mut rep = parallel(ctx.threads, |shard, n| {
